@@ -13,6 +13,13 @@ Fixpoint take (n : nat) (s : string) : string :=
 Definition apply_edit (src : string) (from to : nat) (repl : string) : string :=
   take from src ++ repl ++ drop to src.
 
+(* where byte offset p of the original file lands in the edited file: offsets before the range stay,
+   offsets at or behind its end move by the length difference, offsets inside have no image *)
+Definition map_pos (from to repl_len p : nat) : option nat :=
+  if Nat.ltb p from then Some p
+  else if Nat.leb to p then Some (from + repl_len + (p - to))
+  else None.
+
 (* ---- commentFormatting on one line comment (ASCII case folding) ---- *)
 Definition lower (a : ascii) : ascii :=
   let n := N_of_ascii a in if (N.leb 65 n && N.leb n 90)%bool then ascii_of_N (n + 32) else a.
